@@ -321,6 +321,8 @@ def known_match(case, klass, detail, known):
         a = " ".join(case.get("args", []))
         if pred == "seed-multi-rng-stage" and case.get("rng_stages", 0) >= 2:
             return kf["id"]
+        if pred == "redirect-to-stdout" and any(("> stdout" in x or ">stdout" in x or ">> stdout" in x) for x in case.get("args", [])):
+            return kf["id"]
         if pred == "json-pass-comments" and "--pass-comments" in a and any(f in case.get("args", []) for f in (
                 "--ijson", "--json", "--ijsonl", "--jsonl", "--j2c", "--j2t", "--j2d", "--j2n", "--j2x", "--j2p", "--j2m", "--j2l", "--l2c", "--l2j", "--l2d", "--l2p", "-i")):
             return kf["id"]
